@@ -36,6 +36,10 @@ type c11Scenario struct {
 	// mutation handlers); the scheduler then decides "parked on a channel" from goroutine states and lets those
 	// goroutines finish between two controlled steps (see vsync.Quiet)
 	quietGate bool
+	// devBound: count every departure from the default schedule (also the free choice made when the running thread blocks
+	// or ends), not only preemptions. With three request threads the free choices multiply the preemption-bounded tree
+	// beyond reach; bounding deviations keeps "two departures anywhere" enumerable.
+	devBound bool
 }
 
 func c11KVWorld() (*c11World, error) {
@@ -346,7 +350,7 @@ func c11Scenarios() []c11Scenario {
 		}})
 	// S5d: three partial updates of one key (a lock that is handed from the first to the second request while a third
 	// arrives is the smallest shape in which a per-key lock table can go wrong)
-	sc = append(sc, c11Scenario{name: "S5d:neuronjson:post||post||post:same-key", setup: njWorld,
+	sc = append(sc, c11Scenario{name: "S5d:neuronjson:post||post||post:same-key", devBound: true, setup: njWorld,
 		bodies: func(w *c11World) []func() {
 			u := "node/" + w.root + "/nj/key/1?u=t"
 			return []func(){func() { w.resp[0] = vsrv.PostS(u, `{"bodyid":1,"a":"x"}`) }, func() { w.resp[1] = vsrv.PostS(u, `{"bodyid":1,"b":"y"}`) },
